@@ -4,7 +4,8 @@ pub mod c01;
 pub mod c02;
 pub mod c08;
 pub mod c09;
+pub mod c10;
 
 pub fn all() -> Vec<Property> {
-    vec![c01::property(), c02::property(), c08::property(), c09::property()]
+    vec![c01::property(), c02::property(), c08::property(), c09::property(), c10::property()]
 }
